@@ -49,6 +49,7 @@ func (c *SimClock) Advance(d time.Duration) {
 
 //go:norace
 func (c *SimClock) NewTicker(d time.Duration) *time.Ticker {
+	Yield(KClock, unsafe.Pointer(c)) // a call-out to user code: the caller may be pre-empted in it
 	ch := make(chan time.Time, 1)
 	tk := &SimTicker{C: ch, D: d, T: &time.Ticker{C: ch}}
 	c.Tickers = append(c.Tickers, tk)
